@@ -10,6 +10,11 @@ Three kinds of case, each reproducible from (kind, seed):
   synth  a PrecipitateBase subclass with a scripted history, solved by the REAL GenericModel.solve /
          DESolver.solve / KWNBase.postProcess / KWNBase.reset (and TTPCalculator) — no thermodynamics
   real   binary Al-Zr KWN run (kawin/tests setup) with stopping conditions; TTPCalculator in thorough
+  hist   HISTORY of the condition list of one model: pool of condition objects, random calls of addStoppingCondition
+         (both modes) / clearStoppingConditions / reset / solve / TTPCalculator(model, ..) / calculateTTP, then further runs;
+         after every run: stopped at the first step at which the rule holds for the conditions registered NOW (oracle keeps
+         its own registration state), else reached the end time; TTP times = first crossings of a run WITHOUT conditions;
+         the whole call sequence goes to the model in one line (verb sc.hist).  Scripted model + one real Al-Zr history.
 """
 import contextlib, io, math, os, traceback, types
 import numpy as np
@@ -20,7 +25,7 @@ vlib.use_repo()          # `import kawin` below resolves to the tree under test 
 
 PROP = 'C19'
 META = {
-    'level_text': 'Lean 4 theorems, for any linearly ordered field and histories of every length, about an executable model of PrecipitationStoppingCondition (latch, _poll, testCondition), the and/or combination of KWNBase.postProcess, the DESolver loop, KWNBase.reset and TTPCalculator._getStopTime: latch (flag and reported time never change once satisfied), satisfied iff the monitored value was beyond the threshold on a tested row, reported time = linear interpolant and inside [t_prev, t_cur] for both inequalities, first-step case, stop iff (some or-condition satisfied) or (#and > 0 and all and-conditions satisfied), the loop ends at the first step with stop and otherwise at the first row at or beyond the end time (soundness and completeness), _poll reads row n / column phase-or-element of the named array for all six quantities, reset clears every latch and TTP times depend only on that temperature\'s run. The model is tied to the code on every run by differential correspondence (condition objects on stubs, scripted histories through the real solve/postProcess/reset/TTPCalculator, a real binary Al-Zr run) and the property predicates are evaluated directly on pData histories and condition objects.',
+    'level_text': 'Lean 4 theorems, for any linearly ordered field and histories of every length, about an executable model of PrecipitationStoppingCondition (latch, _poll, testCondition), the and/or combination of KWNBase.postProcess, the DESolver loop, KWNBase.reset and TTPCalculator._getStopTime: latch (flag and reported time never change once satisfied), satisfied iff the monitored value was beyond the threshold on a tested row, reported time = linear interpolant and inside [t_prev, t_cur] for both inequalities, first-step case, stop iff (some or-condition satisfied) or (#and > 0 and all and-conditions satisfied), the loop ends at the first step with stop and otherwise at the first row at or beyond the end time (soundness and completeness), _poll reads row n / column phase-or-element of the named array for all six quantities, reset clears every latch and TTP times depend only on that temperature\'s run; and about the REGISTRATION STATE of one model through any history of addStoppingCondition / clearStoppingConditions / reset / solve / TTPCalculator(model, ...) calls (Reg, Op, Reg.after): the stop decision of a run is a function of the currently registered list and the latches of the registered objects only (stop_depends_on_registered_only), after a clear with no and-condition registered since the and-branch contributes false and a model with nothing registered runs to the end time (clear_then_no_and_never_stops, cleared_model_runs_to_end), the TTP constructor leaves exactly its own conditions registered in and-mode and its reported times do not depend on what the model carried before (ttp_sees_only_its_conditions), with witness theorems for a stale and-counter and for a constructor that keeps old conditions. The model is tied to the code on every run by differential correspondence (condition objects on stubs, scripted histories through the real solve/postProcess/reset/TTPCalculator, whole call histories on one model with a pool of condition objects, a real binary Al-Zr run and a real call history) and the property predicates are evaluated directly on pData histories and condition objects.',
     'level_note': 'Trusted: Lean kernel + Mathlib, axioms propext/Classical.choice/Quot.sound; the hand model KawinV.StopCond equals the Python code only as far as this run compared them; exact-field arithmetic instead of IEEE doubles (the interpolated time can leave the step by rounding: oracle tolerance 1e-9 of the step); the sequence of rows and times of a run (time stepping, C05) is an input of the model, not derived; NaN monitored values are outside the statement. Modelled code is the repaired code (two fix: commits, see known_findings.txt).',
     'technique': 'Lean 4 proof over ordered fields + model/implementation differential correspondence + direct oracle on run histories',
     'design_ref': 'DESIGN.md section 6, C19',
@@ -29,6 +34,7 @@ LEAN_MODULES = ['KawinV.Props.C19']
 MONITORED = [
     'a real KWN run appends exactly one pData row per solver step and calls testCondition on every condition after every step (checked on the real run by comparing latches with the model replayed on the recorded pData history)',
     'TTPCalculator on the real model: history of each temperature starts at t = 0 with that temperature (reset + setTemperature took effect)',
+    'call histories: the times a TTPCalculator reports equal the first crossings of a run of the same configuration WITHOUT stopping conditions (reference run made through the same reset/setTemperature/solve calls; real model: thorough tier only, rtol 1e-6)',
 ]
 ASSUMPTIONS = [
     'monitored values and times are finite (no NaN); times are non-decreasing along a run',
@@ -1109,6 +1115,18 @@ class SynthAdapter:
         c = self.c
         return synth_class()(c['phases'], c['elements'], lambda T, c=c: c['Hs'][round(float(T), 6)])
 
+    _refs = {}
+
+    def reference(self):
+        """a model of the same configuration that never gets a stopping condition (constructing one costs 35 ms: kept per phase/element set)"""
+        c = self.c
+        key = (tuple(c['phases']), tuple(c['elements']))
+        if key not in SynthAdapter._refs:
+            SynthAdapter._refs[key] = self.make()
+        M = SynthAdapter._refs[key]
+        M.script = lambda T, c=c: c['Hs'][round(float(T), 6)]
+        return M
+
     def after_reset(self, M):
         pass
 
@@ -1128,6 +1146,9 @@ class RealAdapter(SynthAdapter):
         M = real_model()
         M.setConstraints(dtScale=0.05)      # only shortens the initial ramp of the time step
         return M
+
+    def reference(self):
+        return self.make()
 
     def after_reset(self, M):               # reset() re-creates the population balance with defaults: the user re-applies them
         M.setPBMParameters(cMin=1e-10, cMax=1e-8, bins=75, minBins=50, maxBins=100)
@@ -1201,7 +1222,7 @@ def drive_hist(c):
                 table = np.array(ttp.transformationTimes, dtype=float)
                 for ti, sn in enumerate(pool.snaps):
                     # independent reference: the same configuration WITHOUT stopping conditions through the same calls
-                    ref = ad.make(); ref.reset(); ref.setTemperature(sn['T'])
+                    ref = ad.reference(); ref.reset(); ref.setTemperature(sn['T'])
                     ref.solve(op[3], verbose=True, vIt=1000)
                     rec.append(dict(k='R', oi=oi, lat=None, reg=None, ttp=True))
                     rec.append(dict(k='S', oi=oi, k0=0, tf=sn['tf'], m=int(sn['m']), H=sn['H'], lat=sn['post'], reg=None, ttp=True, T=sn['T'], idx=list(op[1]),
@@ -1238,15 +1259,12 @@ def oracle_hist(res, c, rec, exc):
             cls = ('ttp-run:model-carried-%s' % carried) if R.get('ttp') else ('%s:%s' % (past, reg_class(sh_reg)))
             res.count('%s:solve:%s' % (ad.tag, cls)); nsolve += 1
             nv = len(res.violations)
-            if R.get('ttp') and float(R['H']['time'][0]) != 0.0:
-                res.violate('hist:%s:history-not-restarted' % cls, 'the history of this temperature does not start at t = 0 (model not reset)', dict(desc, temperature=R['T']), float(R['H']['time'][0]), 0.0)
-            oracle_segment(res, 'hist:%s:' % cls, dict(desc, temperature=R['T']) if R.get('ttp') else desc, act, seg, ad.tag)
-            if len(res.violations) > nv:
-                return nsolve          # the oracle's state cannot be continued past a run that broke the rule
-            for (i, _), p in zip(sh_reg, seg['post']):
-                sh_lat[i] = p
             if R.get('ttp'):
+                # (1) independent of the oracle's registration state: what the calculator reports for this temperature against
+                #     a run of the same configuration WITHOUT any stopping condition, for exactly the calculator's conditions
                 d2 = dict(desc, temperature=R['T'], maxTime=R['maxTime'])
+                if float(R['H']['time'][0]) != 0.0:
+                    res.violate('hist:%s:history-not-restarted' % cls, 'the history of this temperature does not start at t = 0 (model not reset)', d2, float(R['H']['time'][0]), 0.0)
                 want = [R['lat'][i][1] for i in R['idx']]
                 if R['ret'] != want or R['row'] != R['ret']:
                     res.violate('hist:%s:table-not-condition-times' % cls, 'transformationTimes row differs from satisfiedTime() of the calculator\'s conditions', d2, R['row'], want)
@@ -1262,11 +1280,17 @@ def oracle_hist(res, c, rec, exc):
                         res.violate('hist:%s:time-differs-from-run-without-conditions' % cls,
                                     'calculator condition %d (%s %s %r): reported %r, but an identically configured model run WITHOUT stopping conditions to maxTime crosses at %r'
                                     % (j, CLASSES[c['pool'][R['idx'][j]]['q']], c['pool'][R['idx'][j]]['d'], c['pool'][R['idx'][j]]['value'], got, e[1]), d2, got, e[1])
-                        return nsolve
+                        break
                 if ad.tag == 'hist-real' and not np.all(R['temperature'] == R['T']):
                     res.violate('hist:%s:wrong-temperature' % cls, 'the run for this temperature was not made at this temperature', d2,
                                 [float(np.min(R['temperature'])), float(np.max(R['temperature']))], R['T'])
                 res.count('%s:ttp-temperatures' % ad.tag)
+            # (2) the run itself against the conditions registered NOW (oracle's own state)
+            oracle_segment(res, 'hist:%s:' % cls, dict(desc, temperature=R['T']) if R.get('ttp') else desc, act, seg, ad.tag)
+            if len(res.violations) > nv:
+                return nsolve          # the oracle's state cannot be continued past a run that broke the rule
+            for (i, _), p in zip(sh_reg, seg['post']):
+                sh_lat[i] = p
         if R['lat'] is not None:
             regd = set(i for i, _ in sh_reg)
             for i in range(K):
@@ -1418,7 +1442,9 @@ def corr(ctx, oracle_only=False, scale=1):
                 '(monotone, non-monotone, constant, plateaus, zero start; 1-30 rows, 1-3 phases/elements, every array different), threshold inside the range / on a sample / '
                 'outside, tested at rows 1..L, 0..L, late start, repeated and unordered rows, then reset and again; '
                 'synth: scripted histories through the real solve/postProcess with 0-6 conditions in and/or mixes, one or two solves, Euler and RK4; '
-                'comb: all 2^k x 2^k mode/satisfied patterns, k <= 4; ttp: TTPCalculator over 2-4 temperatures; real: binary Al-Zr KWN runs. '
+                'comb: all 2^k x 2^k mode/satisfied patterns, k <= 4; ttp: TTPCalculator over 2-4 temperatures; real: binary Al-Zr KWN runs; '
+                'hist: one model + pool of 2-5 condition objects, 3-12 random calls of add (both modes) / clear / reset / solve / TTPCalculator construction / calculateTTP (1-3 temperatures) '
+                'ending in a run, evaluated against the oracle\'s own registration state and, for TTP, a reference run without conditions (scripted model; one real Al-Zr history). '
                 'non-trivial = at least two tested rows / at least one condition and no exception; distinct = (kind, seed)')
     # every part runs whatever happened in the others; inside a part every case has its own guard
     guard(res, 'part-combination', {}, part_combination, ctx, res, oracle_only)
